@@ -1,6 +1,7 @@
 package main
 
 import (
+	"archive/tar"
 	"bytes"
 	"context"
 	"errors"
@@ -381,7 +382,14 @@ func seqPush(res *worker.Result, k *kase, tr truth, rng *rand.Rand) {
 	}
 
 	switch {
-	case !tr.PrefixOK:
+	case !tr.PrefixOK || tr.ErrWithLast:
+		// ErrWithLast: the read that delivers the last of the Size bytes reports a non-EOF
+		// error, so the reader "fails" while the store is reading the content (statement:
+		// "a Push whose reader ... fails ... returns an error"). An error that only shows on
+		// a later read stays unconstrained (a store need not perform that read).
+		if tr.ErrWithLast {
+			res.Count("pushes_reader_failed_with_last_bytes", 1)
+		}
 		if pushErr == nil {
 			res.Violate("bad-push-accepted:"+sfx(k), "Push returned nil although the reader ends early / fails / the first Size bytes do not hash to Digest / the descriptor is malformed", w())
 			return
@@ -427,6 +435,13 @@ func seqPush(res *worker.Result, k *kase, tr truth, rng *rand.Rand) {
 			if !refusedOK() {
 				return
 			}
+		}
+	}
+
+	// what is visible now must not be handed back by FetchAll under a descriptor of another length
+	if pushErr == nil && tr.PrefixOK {
+		if !wrongSizeProbes(res, k, t, d, k.Stream[:k.Size], rng, w) {
+			return
 		}
 	}
 
@@ -488,6 +503,126 @@ func seqPush(res *worker.Result, k *kase, tr truth, rng *rand.Rand) {
 		}
 		res.Count("followup_bad_after_accepted", 1)
 	}
+}
+
+// wrongSizeProbes: with content `want` visible under d, FetchAll with the same digest but a
+// larger / smaller / zero size must not hand back data without error ("only when both length
+// and digest match"), on the store itself and on read-only views of an OCI layout (fs.FS, tar),
+// whose readers are files.
+func wrongSizeProbes(res *worker.Result, k *kase, t *target, d ocispec.Descriptor, want []byte, rng *rand.Rand, w func() map[string]any) bool {
+	n := int64(len(want))
+	sizes := []int64{n + 1, n + 1 + rng.Int64N(5000)}
+	if n > 0 {
+		sizes = append(sizes, n-1, 0)
+	}
+	type fv struct {
+		name string
+		f    content.Fetcher
+	}
+	views := []fv{{"store", t.st}}
+	if t.blobsDir != "" {
+		root := filepath.Dir(t.blobsDir)
+		views = append(views, fv{"oci.NewStorageFromFS", oci.NewStorageFromFS(os.DirFS(root))})
+		if k.Store == "oci-store" {
+			if ro, err := oci.NewFromFS(ctx, os.DirFS(root)); err == nil {
+				views = append(views, fv{"oci.NewFromFS", ro})
+			} else {
+				res.Count("readonly_view_open_failed", 1)
+			}
+		}
+		if rng.IntN(3) == 0 && n < 200000 {
+			tarPath := root + ".tar"
+			defer os.Remove(tarPath)
+			if err := writeTar(root, tarPath); err != nil {
+				res.Violate("harness:tar", err.Error(), nil)
+				return false
+			}
+			if ro, err := oci.NewStorageFromTar(tarPath); err == nil {
+				views = append(views, fv{"oci.NewStorageFromTar", ro})
+			} else {
+				res.Count("readonly_view_open_failed", 1)
+			}
+		}
+	}
+	for _, view := range views {
+		// sanity of the view: the right descriptor is handed back (only counted; a read-only
+		// view is not the subject of the exact-accept rule)
+		if got, err := content.FetchAll(ctx, view.f, d); err == nil && bytes.Equal(got, want) {
+			res.Count("fetchall_right_size_ok", 1)
+		} else if err == nil {
+			m := w()
+			m["fetchall_view"] = view.name
+			res.Violate("wrong-data-handed-back:"+k.Store+":FetchAll@"+view.name, "FetchAll returned data without error that differ from the stored bytes", m)
+			return false
+		}
+		for _, sz := range sizes {
+			pd := d
+			pd.Size = sz
+			got, err := content.FetchAll(ctx, view.f, pd)
+			res.Count("fetchall_wrong_size_probes", 1)
+			if err == nil {
+				m := w()
+				m["fetchall_view"] = view.name
+				m["probe_size"] = sz
+				m["stored_len"] = n
+				m["returned_len"] = len(got)
+				rel := "larger"
+				if sz < n {
+					rel = "smaller"
+				}
+				res.Violate("bad-read-accepted:"+k.Store+":FetchAll@"+view.name+":size-"+rel, fmt.Sprintf("FetchAll returned %d bytes without error for a descriptor of size %d naming a stored blob of %d bytes", len(got), sz, n), m)
+				return false
+			}
+		}
+	}
+	return true
+}
+
+func writeTar(dir, tarPath string) error {
+	f, err := os.Create(tarPath)
+	if err != nil {
+		return err
+	}
+	defer f.Close()
+	tw := tar.NewWriter(f)
+	err = filepath.WalkDir(dir, func(p string, de fs.DirEntry, err error) error {
+		if err != nil {
+			return err
+		}
+		rel, _ := filepath.Rel(dir, p)
+		if rel == "." {
+			return nil
+		}
+		info, err := de.Info()
+		if err != nil {
+			return err
+		}
+		hdr, err := tar.FileInfoHeader(info, "")
+		if err != nil {
+			return err
+		}
+		hdr.Name = filepath.ToSlash(rel)
+		if de.IsDir() {
+			hdr.Name += "/"
+		}
+		if err := tw.WriteHeader(hdr); err != nil {
+			return err
+		}
+		if info.Mode().IsRegular() {
+			b, err := os.ReadFile(p)
+			if err != nil {
+				return err
+			}
+			if _, err := tw.Write(b); err != nil {
+				return err
+			}
+		}
+		return nil
+	})
+	if err != nil {
+		return err
+	}
+	return tw.Close()
 }
 
 // ---- cas.Proxy: cache fill through the tee path ---------------------------------------------------
@@ -674,6 +809,34 @@ func seqReadAll(res *worker.Result, k *kase, tr truth, rng *rand.Rand) {
 		return k.witness(map[string]any{"returned_err": errStr(err), "returned_data": short(data), "returned_len": len(data)})
 	}
 	judgeHandBack(res, k, tr, err == nil, data, w, "returned data without error")
+
+	// FetchAll over a fetcher whose reader is an *os.File (exposes Stat, ReadFrom, ...)
+	if k.Store == "FetchAll" && rng.IntN(2) == 0 {
+		kf := *k
+		kf.Store = "FetchAll-os.File"
+		kf.Rho = rho{Chunk: "os.File", ErrAt: -1}
+		trf := kf.truth()
+		dir, err := os.MkdirTemp("", "verif-c05-")
+		if err != nil {
+			res.Violate("harness:mkdtemp", err.Error(), nil)
+			return
+		}
+		defer os.RemoveAll(dir)
+		path := filepath.Join(dir, "blob")
+		if err := os.WriteFile(path, k.Stream, 0o644); err != nil {
+			res.Violate("harness:write", err.Error(), nil)
+			return
+		}
+		fdata, ferr := content.FetchAll(ctx, content.FetcherFunc(func(context.Context, ocispec.Descriptor) (io.ReadCloser, error) {
+			return os.Open(path)
+		}), d)
+		res.Count("fetchall_os_file_calls", 1)
+		res.Observe("stores", kf.Store)
+		wf := func() map[string]any {
+			return kf.witness(map[string]any{"returned_err": errStr(ferr), "returned_data": short(fdata), "returned_len": len(fdata)})
+		}
+		judgeHandBack(res, &kf, trf, ferr == nil, fdata, wf, "returned data without error")
+	}
 }
 
 // judgeHandBack applies the ReadAll / FetchAll / VerifyReader rule: data is
